@@ -13,6 +13,7 @@
 namespace simrt {
 
 thread_local int g_in_sut = 0;
+void (*g_heap_range_hook)(const void *, size_t) = nullptr;     // engine B: shadow state of a block is cleared on hand-over
 
 namespace {
 
@@ -109,6 +110,7 @@ void *do_alloc(size_t size, bool array, size_t align, bool nothrow) {
         if (p && RZ) { std::memset(p, RZ_BYTE, RZ); p = (char *)p + RZ; std::memset((char *)p + size, RZ_BYTE, RZ); }
     }
     if (!p) { if (nothrow) return nullptr; throw std::bad_alloc(); }
+    if (g_heap_range_hook) g_heap_range_hook(p, size);
     Lock l;
     if (sut && s->run_active) std::memset(p, s->fill_fresh, size);
     Entry e; e.id = s->next_id++; e.size = size; e.array = array; e.sut = sut;
@@ -122,6 +124,7 @@ void *do_alloc(size_t size, bool array, size_t align, bool nothrow) {
 void do_free(void *p, bool array) {
     if (!p) return;
     State *s = S();
+    if (g_heap_range_hook) { BlockInfo bi; if (heap_lookup(p, &bi)) g_heap_range_hook(p, bi.size); }
     Lock l;
     if (g_in_sut > 0) ++s->op_frees;
     auto it = s->ledger.find(p);
